@@ -17,9 +17,11 @@ RULE = ("three case kinds.  (1) enum: batches of the exhaustively enumerated sma
         "<= 2 nesting levels and <= 3 branches per construct, IF ladders and SWITCH constructs, every truth "
         "assignment), each skeleton in its own ORG slot.  (2) prog: sampled programs of 1-10 skeleton items "
         "(depth <= 4, <= 5 branches; IF expressions, IFDEF/IFNDEF, IFUSED/IFNUSED, IFEXIST/IFNEXIST, IFB/IFNB "
-        "in macros with every blank pattern, int/float/string SWITCH with overlapping CASE lists, EXITM, "
-        "INCLUDE/REPT wrappers, poison statements in branches the model proves skipped, 8 targets, 1 or 2 "
-        "passes).  (3) mal: a small well-formed program with one stray conditional statement or one deleted "
+        "in macros with every blank pattern and positional/trimmed/keyword argument lists, int/float/string "
+        "SWITCH with overlapping CASE lists, EXITM in macros/IRP/REPT, macro calls and loops wrapped in up to "
+        "two live or skipped constructs and an outer macro, INCLUDE/REPT wrappers inside branches, poison "
+        "statements and erroneous conditions in text the model proves skipped, 8 targets (SELECT on OLMS-50), "
+        "1 or 2 passes) plus fixed regression and deep-nesting (6-26 levels) programs.  (3) mal: a small well-formed program with one stray conditional statement or one deleted "
         "closer.  non-trivial = nesting >= 2 with a selected branch that is not the first, or an IFB list with "
         "a blank and a non-blank argument, or overlapping CASE values (prog/enum), or a mutation whose place "
         "makes an error mandatory (mal); distinct by (skeleton shapes, vector of assembled leaves) resp. "
@@ -36,12 +38,24 @@ ASSUMPTIONS = [
     "U symbols tested with IFUSED are referenced only by data statements of leaves, never by IFDEF/DEFINED",
     "whitespace-only macro arguments are not generated (only truly empty or non-empty ones)",
     "no labels on conditional statements themselves",
+    "IRP/REPT items: leaves define no symbols (labels in loop bodies may be local to a repetition); an executed "
+    "EXITM ends the whole IRP/REPT, not only the current repetition (manual: EXITM terminates 'one of the "
+    "instructions REPT, IRP, or WHILE prematurely')",
+    "the operator '!=' (documented alias of '<>') is not generated: it is missing from the operator table of the "
+    "tree (every use gives 'wrong number of operands'); that belongs to C08, not to this property",
+    "OLMS-50 (the only target where the construct is opened with SELECT): DATA lays down one 16-bit code word "
+    "per value; markers are read from the low bytes and the high bytes must be zero",
+    "poison statements (ERROR, FATAL, END, INCLUDE of a missing file, unknown instructions, ORG, CPU, macro "
+    "calls, unterminated strings, erroneous IF/ELSEIF/SWITCH/CASE expressions) are rendered only in text the "
+    "model proves is never assembled; erroneous conditions keep one argument (CASE: a list), because argument "
+    "counts of conditional statements are checked even in skipped text",
     "malformed family: an error is only demanded where no reading of the manual pairs the statement: surplus "
     "closer anywhere, missing closer anywhere, stray ELSE/ELSEIF with no IF open or after the default branch, "
     "stray CASE/ELSECASE with no SWITCH open or after ELSECASE (all in assembled text); other places only "
     "demand a normal exit (status 0 or 2, no signal)",
 ]
 
+KNOWN = {}
 ENUM_BATCH = 400
 ENUM_STRIDE = 8
 ENUM_CPUS = [i for i, n in enumerate(cm.CPU_NAMES) if cm.CPUS[n]["limit"] >= 32 * ENUM_BATCH + 64]
@@ -101,7 +115,7 @@ def compare(prog, r):
     if got != prog.expect:
         for idx, call, base, out in prog.slots:
             size = len(out)
-            g = bytes(got[a] for a in sorted(got) if base <= a < base + 256 and a < _next_base(prog, base))
+            g = bytes(got[a] for a in sorted(got) if base <= a < _next_base(prog, base))
             if g != bytes(out):
                 return ("item %d call %d at %d: marker bytes %s, model expects %s"
                         % (idx, call, base, g.hex(), bytes(out).hex()),
@@ -120,6 +134,11 @@ def compare(prog, r):
             return "SWITCH without matching CASE and without ELSECASE did not warn", brief
         if len(warns) % prog.warn_count:
             return "%d 'no CASE hit' warnings, model expects a multiple of %d" % (len(warns), prog.warn_count), brief
+    # warnings given outside macro/loop expansions name the ENDCASE line of exactly the constructs without a hit
+    plain = {(w["file"], w["line"]) for w in warns if re.fullmatch(r"[^\s(]+\(\d+\)(:\d+)?", w["pos"])}
+    if plain != set(prog.warn_lines):
+        return ("'no CASE hit' warnings at %s, model expects them at %s"
+                % (sorted(plain)[:6], sorted(prog.warn_lines)[:6]), brief)
     return None
 
 
@@ -298,7 +317,7 @@ def g_cond(d, env):
     if k == "def":
         return {"k": "def", "s": g_name(d, env), "n": int(d.bool(0.4))}
     if k == "used":
-        return {"k": "used", "s": d.choice(cm.USYMS + cm.USYMS + cm.UNDEF), "n": int(d.bool(0.4))}
+        return {"k": "used", "s": d.choice(cm.USYMS + cm.USYMS + ["u1", "u3"] + cm.UNDEF), "n": int(d.bool(0.4))}
     if k == "ex":
         return {"k": "ex", "f": d.int(0, len(cm.EXIST_FORMS) - 1), "n": int(d.bool(0.4))}
     n = d.weighted([(1, 0), (3, 1), (4, 2), (3, 3), (2, 4)])
@@ -325,6 +344,8 @@ def g_leaf(d, env):
         lf["po"] = d.int(0, len(cm.POISON) - 1)
     if env.get("exitm") and d.bool(0.04):
         lf["x"] = 1
+    if env.get("mdef") and d.bool(0.2):
+        lf["md"] = 1
     return lf
 
 
@@ -396,7 +417,10 @@ def number(item):
 
 
 def g_wrappers(d):
-    return [[d.choice("IS"), int(d.bool(0.75))] for _ in range(d.weighted([(5, 0), (3, 1), (2, 2)]))]
+    wr = [[d.choice("IS"), int(d.bool(0.75))] for _ in range(d.weighted([(5, 0), (3, 1), (2, 2)]))]
+    if d.bool(0.2):
+        wr.append(["M", 1])
+    return wr
 
 
 def g_item(d, idx, names, maxdepth, allow_mac, poison, wrap, maxleaf):
@@ -404,7 +428,10 @@ def g_item(d, idx, names, maxdepth, allow_mac, poison, wrap, maxleaf):
     if allow_mac:
         kind = d.weighted([(11, "plain"), (6, "mac"), (2, "irp"), (1, "rept")])
     own = ["S%d_%d" % (idx, k) for k in (1, 2, 3, 4, 5, 7, 9, 12)]
-    env = dict(names=names + own, mac=0, poison=poison, wrap=wrap and kind == "plain", maxdepth=maxdepth)
+    env = dict(names=names + own, mac=0, poison=poison, wrap=wrap and kind == "plain", maxdepth=maxdepth,
+               mdef=kind == "plain" and allow_mac and d.bool(0.3))
+    if env["mdef"]:
+        env["wrap"] = False
     if kind == "mac":
         env["mac"] = d.int(1, 4)
         env["exitm"] = True
@@ -515,9 +542,6 @@ def exec_prog(case):
     for t, name in (("N(", "include-wrap"), ("R(", "rept-wrap")):
         if t in shp:
             kinds.add(name)
-    maxbr = 0
-    for m in re.finditer(r"[IS]\(", shp):
-        pass
     classes += sorted("c:" + k for k in kinds) + ["depth:%d" % depth] + sorted(set("nt:" + x for x in nt))
     key = None
     if nt:
@@ -548,8 +572,6 @@ def mutate(case):
         cls, desc = "must", "deleted '%s' of line %d" % (lines[p]["text"].strip(), p + 1)
     else:
         stmt = cm.STRAYS[mut["stmt"]]
-        if stmt.startswith("case") and cm.CPUS[cm.CPU_NAMES[case["cpu"]]]["sw"] != "switch":
-            pass
         allc = []
         for i in range(first, len(lines) + 1):
             if i < len(lines):
@@ -559,6 +581,8 @@ def mutate(case):
             allc.append((i, c))
         must = [x for x in allc if x[1] == "must"]
         pool = allc if (mut.get("any") or not must) else must
+        if mut.get("at") == "end":
+            pool = allc[-1:]
         p, cls = pool[mut["pos"] % len(pool)]
         new = [l["text"] for l in lines[:p]] + ["\t" + stmt] + [l["text"] for l in lines[p:]]
         st = lines[p]["stack"] if p < len(lines) else ()
@@ -599,7 +623,70 @@ def exec_mal(case):
     return engine.ok(key, classes)
 
 
-REGRESSIONS = []
+def _L(**kw):
+    return dict({"t": "L", "id": 0}, **kw)
+
+
+def _deep(depth, false_at=None, kinds="IS"):
+    """chain of `depth` nested constructs (IF ladders and SWITCHes alternating, three branches each); the nested
+    construct sits in branch level%3 which is the selected one, except at level `false_at` where another
+    branch is selected, so that everything deeper is skipped text that only has to be paired"""
+    def level(k):
+        if k == depth:
+            return [_L()]
+        pos = k % 3
+        sel = pos if k != false_at else (pos + 1) % 3
+        bodies = [[_L()] for _ in range(3)]
+        bodies[pos] = [_L()] + [None] + [_L()]
+        inner = level(k + 1)
+        if kinds[k % len(kinds)] == "I":
+            n = {"t": "I", "c": {"k": "if", "e": ["n", int(sel == 0)]}, "b": bodies[0],
+                 "ei": [{"e": ["cmp", "==", ["s", "K5"], ["n", 5 if sel == 1 else 4]], "b": bodies[1]}], "el": bodies[2]}
+        else:
+            n = {"t": "S", "sel": ["n", sel], "pre": None,
+                 "cs": [{"v": [["n", 0]], "b": bodies[0]}, {"v": [["n", 7], ["n", 1]], "b": bodies[1]}], "el": bodies[2]}
+        bodies[pos][1] = inner[0] if len(inner) == 1 and inner[0]["t"] != "L" else None
+        if bodies[pos][1] is None:
+            # innermost level: plain leaves only
+            bodies[pos][1:2] = []
+        return [n]
+    it = {"body": level(0), "mac": None, "pf": 0, "sty": 0}
+    number(it)
+    return it
+
+
+def _regressions():
+    out = []
+    # IFB must look at every argument (pinned tree: every second one) - proposed/C12/ifb-skips-every-second-argument.md
+    ifb = {"body": [{"t": "I", "c": {"k": "b", "a": [0, 1], "n": 0}, "b": [_L()], "ei": [], "el": [_L()]},
+                    _L(), {"t": "I", "c": {"k": "b", "a": [0, 1, 2, 3], "n": 1}, "b": [_L()], "ei": [], "el": [_L()]}],
+           "mac": {"np": 4, "calls": [["", "x", "", ""], ["x", "", "", ""], ["", "", "", ""], ["", "", "", "1"],
+                                      ["", "", "foo", ""]]}, "pf": 0, "sty": 0}
+    number(ifb)
+    out.append(dict(kind="prog", cpu=0, twopass=0, style=0, items=[ifb]))
+    # lone ELSECASE (pinned tree: SIGSEGV) - proposed/C12/elsecase-without-switch-crashes.md
+    plain = {"body": [{"t": "I", "c": {"k": "if", "e": ["n", 1]}, "b": [_L()], "ei": [], "el": None}], "mac": None,
+             "pf": 0, "sty": 0}
+    number(plain)
+    for st in range(len(cm.STRAYS)):
+        out.append(dict(kind="mal", cpu=0, style=0, items=[plain], mut={"op": "stray", "stmt": st, "pos": 0, "at": "end"}))
+    # EXITM inside IRP (pinned tree: SIGSEGV) - proposed/C12/exitm-in-irp-crashes.md
+    for wr in ([], [["I", 1]], [["S", 1], ["M", 1]]):
+        irp = {"body": [{"t": "I", "c": {"k": "if", "e": ["cmp", "==", ["p"], ["n", 3]]}, "b": [_L(df="none", x=1)], "ei": [],
+                         "el": [_L(df="none")]}, _L(df="none")], "mac": None, "pf": 0, "sty": 0,
+               "loop": {"k": "irp", "vals": [1, 3, 2], "wr": wr}}
+        number(irp)
+        out.append(dict(kind="prog", cpu=0, twopass=0, style=0, items=[irp]))
+    # deep nesting ("may be nested arbitrarily"), fully assembled and with a skipped tail
+    for depth in (6, 12, 20, 26):
+        for false_at in (None, 0, depth // 2, depth - 1):
+            for kinds in ("IS", "I", "S", "SSI"):
+                out.append(dict(kind="prog", cpu=(depth + len(kinds)) % 7, twopass=int(false_at is None), style=depth,
+                                items=[_deep(depth, false_at, kinds)]))
+    return out
+
+
+REGRESSIONS = _regressions()
 
 
 def execute(case):
